@@ -82,6 +82,20 @@ Proof.
   - rewrite H. apply IH.
 Qed.
 
+(* a sufficient criterion for not returning: after k passes the run is in a state that a pass maps to itself while
+   reporting a modification; from then on nothing ever changes *)
+Theorem sticky_livelock_criterion : forall fx o ms ts pr k s pf,
+  sticky_prepare o ms ts = Some pr ->
+  run_perform k fx pr = (s, pf, PerfFuel) ->
+  reassign_pass fx (pr_prev pr) (pr_c2p pr) (pr_p2c pr) (pr_parts pr) s false = (s, true, PassDone) ->
+  forall fuel, (k <= fuel)%nat -> exists p, sticky_plan fuel fx o ms ts = SFuel p.
+Proof.
+  intros fx o ms ts pr k s pf Ep Ek Ecyc fuel Hf. unfold sticky_plan, sticky_plan_full. rewrite Ep.
+  replace fuel with (k + (fuel - k))%nat by lia. unfold run_perform in *. rewrite perform_add, Ek.
+  destruct (perform_fixpoint fx _ _ _ _ _ Ecyc (fuel - k)%nat pf) as [pf' E]. rewrite E.
+  unfold sticky_finish, balance_finish. cbn [b_end p_res]. eauto.
+Qed.
+
 Definition w2_prep : option prep := Eval vm_compute in sticky_prepare o_empty w2_members w2_topics.
 Lemma w2_prep_eq : sticky_prepare o_empty w2_members w2_topics = w2_prep.
 Proof. vm_compute. reflexivity. Qed.
